@@ -37,6 +37,8 @@ type ruleSpec struct {
 type scenario struct {
 	D defaultSpec
 	R ruleSpec
+	// OnError, if not nil, is the rule's error pipeline as written (instead of the one derived from R.EH)
+	OnError []config.MechanismConfig
 }
 
 func (s scenario) String() string {
@@ -148,6 +150,10 @@ func build(s scenario, failing bool, extra []config.MechanismConfig) (*vkit.Worl
 	exec, onErr := pipeline(s.R.stages)
 	if extra != nil {
 		exec = extra
+	}
+
+	if s.OnError != nil {
+		onErr = s.OnError
 	}
 
 	r := rulecfg.Rule{
@@ -516,6 +522,37 @@ func TestOrderingsAndMalformedRules(t *testing.T) {
 			t.Skip("empty execute list")
 		}
 
+		// the error pipeline of the rule: references to error handlers, also to the same one several times (with
+		// different conditions), each with or without an override of its own
+		s.R.EH = []string{"r_e1", "r_e2"}
+		s.OnError = []config.MechanismConfig{}
+		onErrorValid := true
+
+		var onErrDesc []string
+
+		for i, ne := 0, rapid.IntRange(0, 3).Draw(t, "nOnError"); i < ne; i++ {
+			id := rapid.SampledFrom([]string{"r_e1", "r_e1", "r_e2"}).Draw(t, "errorHandler")
+			ref := config.MechanismConfig{"error_handler": id}
+
+			switch rapid.IntRange(0, 9).Draw(t, "onErrorDefect") {
+			case 0:
+				ref["error_handler"] = "no_such_error_handler"
+				onErrorValid = false
+			case 1, 2:
+				ref["config"] = map[string]any{"reject_override": true}
+				onErrorValid = false
+			case 3, 4:
+				ref["config"] = map[string]any{"header": "X-Probe"}
+			}
+
+			if rapid.Bool().Draw(t, "onErrorCond") {
+				ref["if"] = rapid.SampledFrom([]string{"true", "false", "type(Error) == authentication_error"}).Draw(t, "onErrorIf")
+			}
+
+			s.OnError = append(s.OnError, ref)
+			onErrDesc = append(onErrDesc, fmt.Sprint(ref))
+		}
+
 		// reference: order authenticators, then authorizers/contextualizers, then finalizers
 		valid := true
 		stage := 0
@@ -551,6 +588,8 @@ func TestOrderingsAndMalformedRules(t *testing.T) {
 			valid = false
 		}
 
+		valid = valid && onErrorValid
+
 		w, confErr, loadErr := build(s, false, exec)
 		if confErr != nil {
 			t.Fatalf("harness: %v", confErr)
@@ -559,7 +598,8 @@ func TestOrderingsAndMalformedRules(t *testing.T) {
 		vkit.S.Eval()
 		vkit.S.Label(fmt.Sprintf("ordering.valid=%v", valid))
 
-		desc := fmt.Sprintf("default=%v %v steps=%+v", s.D.Present, s.D.stages, steps)
+		desc := fmt.Sprintf("default=%v %v steps=%+v on_error=%v", s.D.Present, s.D.stages, steps, onErrDesc)
+		vkit.S.LabelIf(len(onErrDesc) >= 2, "ordering.error_pipeline_with_several_references")
 		vkit.S.NonTrivial("ord|"+desc, map[string]any{"default": s.D.Present, "steps": fmt.Sprintf("%+v", steps), "expected_accepted": valid})
 
 		if valid != (loadErr == nil) {
@@ -606,7 +646,15 @@ func TestOrderingsAndMalformedRules(t *testing.T) {
 			final = s.D.Final
 		}
 
-		got := send(w, s, "POST")
+		// (what the error pipeline does when authentication fails is the subject of the exhaustive test; here only the
+		// regular stages are compared)
+		var got []string
+
+		for _, id := range send(w, s, "POST") {
+			if kindOf(id) != "error_handler" {
+				got = append(got, id)
+			}
+		}
 
 		// authenticators: all referenced ones are consulted in order (they report missing credentials) until one succeeds
 		want := append([]string{}, authn...)
